@@ -9,7 +9,6 @@ def gen(rng, tier):
     out = []
     for _ in range(160 if tier == "quick" else 4000):
         G, fam = common.random_connected_graph(rng, 1, 6)
-        if any("-" in x for x in G["names"]): continue
         g = common.genus(G); opt = rng.random() < 0.4
         D = common.random_divisor(rng, G, band=rng.choice(["low", "mid", None]) if opt else None)
         E = [(a, b) for a, b, _ in G["edges"]]; ori = [[a, b] if rng.random() < 0.5 else [b, a] for a, b in E if rng.random() < 0.7]
@@ -52,6 +51,10 @@ def impl(c):
     def edges(els): return sorted((e["data"]["id"], tuple(sorted((e["data"]["source"], e["data"]["target"]))), e["data"].get("oriented", False), e["data"].get("arrow_shape"), (e["data"]["source"], e["data"]["target"]) if e["data"].get("oriented") else None) for e in els if "source" in e["data"])
     eg, ed, eo = _graph_to_cytoscape_elements(g), _divisor_to_cytoscape_elements(d), _orientation_to_cytoscape_elements(o)
     out["el_graph"] = [nodes(eg), edges(eg)]; out["el_div"] = [nodes(ed), edges(ed)]; out["el_ori"] = [nodes(eo), edges(eo)]
+    # a frame of the step-by-step recorder, drawn through its own element builder: graph + chip labels + arrows in one list
+    from chipfiring.CFEWDVisualizer import EWDVisualizer
+    rec = EWDVisualizer(); rec.add_step(d, o, set(), set(), q=names[0]); f = rec.history[-1]
+    ef = rec._get_elements(f["divisor"], f["orientation"], f["unburnt_vertices"], f["firing_set"], f["q"]); out["el_frame"] = [nodes(ef), edges(ef)]
     # history: the graph that has just been drawn gains edges (a thicker existing edge, a new pair) and everything is drawn again
     extra = _grow2(G)
     if extra:
@@ -80,6 +83,7 @@ def _elements_check(c, o):
     M = common.matrix(G); exp_edges = sorted(("%s-%s-%d" % (names[a], names[b], i), (names[a], names[b])) for a in range(n) for b in range(a + 1, n) for i in range(M[a][b]))
     odir = {(min(a, b), max(a, b)): (a, b) for a, b in c["ori"]}
     keys = [("el_graph", lambda v: names[v], M), ("el_div", lambda v: "%s\n%d" % (names[v], c.get("DL", c["D"])[v]), M), ("el_ori", lambda v: names[v], M)]
+    if "el_frame" in o: keys.append(("el_frame", lambda v: "%s\n%d" % (names[v], c.get("DL", c["D"])[v]), M))
     if "el2_graph" in o:
         M2 = common.matrix(common.mk_graph_like(G, G["edges"] + _grow2(G)))
         keys += [("el2_graph", lambda v: names[v], M2), ("el2_div", lambda v: "%s\n%d" % (names[v], c.get("DL", c["D"])[v]), M2), ("el2_div_old", lambda v: "%s\n%d" % (names[v], c.get("DL", c["D"])[v]), M2), ("el2_ori", lambda v: names[v], M2)]
@@ -89,7 +93,7 @@ def _elements_check(c, o):
         if [list(x) for x in nd] != sorted([names[v], lab(v)] for v in range(n)): out.append("%s: node elements %s do not mirror the object" % (key, nd))
         if sorted((e[0], tuple(e[1])) for e in ed) != [(i, tuple(sorted(p))) for i, p in exp_edges]: out.append("%s: edge elements do not give one element per unit of multiplicity" % key)
         for e in ed:
-            a, b = sorted(names.index(x) for x in e[1]); want = odir.get((a, b)) if key in ("el_ori", "el2_ori") else None
+            a, b = sorted(names.index(x) for x in e[1]); want = odir.get((a, b)) if key in ("el_ori", "el2_ori", "el_frame") else None
             if (want is None) != (not e[2]) or (e[3] == "triangle") != (want is not None) or (want is not None and list(e[4]) != [names[want[0]], names[want[1]]]):
                 out.append("%s: arrow on element %s does not match the stored direction %s" % (key, e, want)); break
     return out
